@@ -30,25 +30,26 @@ var c04Positions = []string{"first", "second", "after-expression", "last", "inte
 
 func (c04) Thresholds(tier string) map[string]int64 {
 	th := map[string]int64{
-		"lines":                        15000,
-		"option-groups":                4000,
-		"options":                      10000,
-		"tags":                         8000,
-		"trailing-comments":            3000,
-		"inline:number":                4000,
-		"inline:boolean":               2000,
-		"inline:string":                2000,
-		"display:integer":              1000,
-		"display:negative-zero":        100,
-		"display:non-integral-plain":   500,
-		"display:exponent-zone":        500,
-		"display:big-integer":          200,
-		"cond-subset:none":             500,
-		"cond-subset:all":              200,
-		"cond-subset:some":             1000,
-		"disabled-options":             2000,
-		"cell:first:expression":        1000,
-		"surrounding-whitespace":       2000,
+		"lines":                      15000,
+		"option-groups":              4000,
+		"options":                    10000,
+		"tags":                       8000,
+		"trailing-comments":          3000,
+		"inline:number":              4000,
+		"inline:boolean":             2000,
+		"inline:string":              2000,
+		"display:integer":            1000,
+		"display:negative-zero":      100,
+		"display:non-integral-plain": 500,
+		"display:exponent-zone":      500,
+		"display:big-integer":        200,
+		"display:next-to-an-integer": 1500,
+		"cond-subset:none":           500,
+		"cond-subset:all":            200,
+		"cond-subset:some":           1000,
+		"disabled-options":           2000,
+		"cell:first:expression":      1000,
+		"surrounding-whitespace":     2000,
 	}
 	for _, pos := range c04Positions {
 		for _, cl := range gen.TextClasses() {
@@ -62,7 +63,7 @@ func (c04) Thresholds(tier string) map[string]int64 {
 }
 
 func (c04) Rule() string {
-	return "case = one script of 25 lines and option groups built per character from unit classes {ASCII letters/digits/punctuation, colon, blanks, multi-byte letters, CJK, astral, combining marks, NBSP/ideographic space, bare < > } / and ->, and every escapable character \\\\ \\< \\> \\{ \\} \\# \\/ \\[ \\] escaped} with explicit position classes (first character of the line, second, after an expression, last, interior), 0-4 inline expressions of each type (numbers chosen for display-form coverage: integers up to 2^53-1, -0, 0.1+0.2, 1e-7, 123456.5, 1234567.5, 1e15+0.5, 1e21), 0-3 tags, trailing comments, blanks at either edge; option groups of 1-5 options with every kind of condition subset (none / some / all; literal, variable-dependent). Ground truth by construction: text = concatenation of the units' outputs and the values' display forms, stripped of surrounding Unicode white space; tags in order; Disabled[i] iff option i carries a condition that is false. Numbers outside the zone in which all shortest-round-trip conventions agree are accepted in any notation that parses back to the value with the shortest digit string (integral values: digits only). Non-trivial: an escape or special character in a non-interior position, or a non-integer number, or a condition subset that is neither empty nor full. Distinct by hash of the source line. Lines whose text begins with \\[ or \\] are the known finding K1 and run in a sub-workload of their own."
+	return "case = one script of 25 lines and option groups built per character from unit classes {ASCII letters/digits/punctuation, colon, blanks, multi-byte letters, CJK, astral, combining marks, NBSP/ideographic space, bare < > } / and ->, and every escapable character \\\\ \\< \\> \\{ \\} \\# \\/ \\[ \\] escaped} with explicit position classes (first character of the line, second, after an expression, last, interior), 0-4 inline expressions of each type (numbers chosen for display-form coverage: integers up to 2^53-1, -0, 0.1+0.2, values within 1e-9 and within one ulp of an integer, 1e-7, 123456.5, 1234567.5, 1e15+0.5, 1e21), 0-3 tags, trailing comments, blanks at either edge; option groups of 1-5 options with every kind of condition subset (none / some / all; literal, variable-dependent). Ground truth by construction: text = concatenation of the units' outputs and the values' display forms, stripped of surrounding Unicode white space; tags in order; Disabled[i] iff option i carries a condition that is false. Numbers outside the zone in which all shortest-round-trip conventions agree are accepted in any notation that parses back to the value with the shortest digit string (integral values: digits only). Non-trivial: an escape or special character in a non-interior position, or a non-integer number, or a condition subset that is neither empty nor full. Distinct by hash of the source line. Lines whose text begins with \\[ or \\] are the known finding K1 and run in a sub-workload of their own."
 }
 
 func (c04) Assumptions() []string {
@@ -78,6 +79,7 @@ var c04Pre = map[string]model.Val{
 	"int": model.N(42), "neg": model.N(-17), "big": model.N(1<<53 - 1), "nz": model.N(math.Copysign(0, -1)),
 	"frac": model.N(0.1 + 0.2), "tiny": model.N(1e-7), "mid": model.N(123456.5), "large": model.N(1234567.5),
 	"huge": model.N(1e21), "e15": model.N(1e15 + 0.5), "bigint": model.N(1e18), "third": model.N(1.0 / 3),
+	"near1": model.N(2.0000000001), "near2": model.N(math.Nextafter(3, 4)), "near3": model.N(-7.0000000002), "near4": model.N(0.1 * 3 * 10), "near5": model.N(math.Nextafter(1e6, 0)),
 	"yes": model.B(true), "no": model.B(false),
 	"s": model.S("str"), "pad": model.S(" pad "), "uni": model.S("Ünï 日本 😀"), "empty": model.S(""),
 }
@@ -86,12 +88,14 @@ func c04Expr(r *core.Rand, c *core.Ctx) *hast.Expr {
 	switch r.PickW(50, 20, 30) {
 	case 0:
 		c.Feature("inline:number")
-		v := []string{"int", "neg", "big", "nz", "frac", "tiny", "mid", "large", "huge", "e15", "bigint", "third"}[r.Intn(12)]
+		v := []string{"int", "neg", "big", "nz", "frac", "tiny", "mid", "large", "huge", "e15", "bigint", "third", "near1", "near2", "near3", "near4", "near5"}[r.Intn(17)]
 		switch v {
 		case "int", "neg", "big":
 			c.Feature("display:integer")
 		case "nz":
 			c.Feature("display:negative-zero")
+		case "near1", "near2", "near3", "near4", "near5":
+			c.Feature("display:next-to-an-integer")
 		case "frac", "mid", "third":
 			c.Feature("display:non-integral-plain")
 		case "bigint":
